@@ -30,6 +30,11 @@ package middleware
 //@   requires w != nil && addrsWF(rw)
 //@   ensures w.internal ==> sentinelAddr(rw) || ifaceInternal(rw)
 //@   ensures sentinelAddr(rw) ==> w.internal
+//@   # C17, KNOWN FINDING (recorded, not repaired - see /verif/known_findings.json, DESIGN 8.11): "a query whose source address
+//@   # is outside the configured access list gets no reply ... resolver-internal sub-queries are never subjected to
+//@   # client ... policy": a writer is internal because its TRANSPORT says so, never because of the address a datagram
+//@   # claims - a client datagram from 127.0.0.255 port 0 is waved past the access list, rate limit and views today
+//@   ensures w.internal ==> ifaceInternal(rw)
 //@   ensures w.size == -1 && w.msg == nil && w.wire == nil && !w.directPack && w.Transport == rw
 //@
 //@ uninterp wInternal(w ResponseWriter) bool
